@@ -7,3 +7,5 @@ import MtailVerif.Props.C06
 #print axioms MtailVerif.C06.f_runtime_runtime_skeletons
 #print axioms MtailVerif.C06.f_metrics_store_skeletons
 #print axioms MtailVerif.C06.f_exporter_prometheus_skeletons
+#print axioms MtailVerif.C06.dispatcher_sends_under_lock
+#print axioms MtailVerif.C06.sending_after_unlock_is_unsafe
